@@ -134,8 +134,8 @@ func MarshalValue(ctx Ctx, value reflect.Value, cont Proc) Proc {
 				if marshalerBehindIndirection(value, sbMarshalerType) {
 					break
 				}
-				if value.Kind() == reflect.Ptr && value.IsNil() {
-					_, found := value.Type().Elem().MethodByName("SBMarshaler")
+				if inner := throughInterfaces(value); inner.Kind() == reflect.Ptr && inner.IsNil() {
+					_, found := inner.Type().Elem().MethodByName("SBMarshaler")
 					if !found {
 						// SBMarshaler is method defined on non-pointer type
 						// calling SBMarshaler will deref the nil pointer
@@ -150,7 +150,7 @@ func MarshalValue(ctx Ctx, value reflect.Value, cont Proc) Proc {
 				if marshalerBehindIndirection(value, binaryMarshalerType) {
 					break
 				}
-				if value.Kind() == reflect.Ptr && value.IsNil() {
+				if inner := throughInterfaces(value); inner.Kind() == reflect.Ptr && inner.IsNil() {
 					// calling a value-receiver method through a nil pointer panics
 					*token = Nil
 					return cont, nil
@@ -165,7 +165,7 @@ func MarshalValue(ctx Ctx, value reflect.Value, cont Proc) Proc {
 				if marshalerBehindIndirection(value, textMarshalerType) {
 					break
 				}
-				if value.Kind() == reflect.Ptr && value.IsNil() {
+				if inner := throughInterfaces(value); inner.Kind() == reflect.Ptr && inner.IsNil() {
 					*token = Nil
 					return cont, nil
 				}
@@ -367,6 +367,15 @@ var (
 	binaryMarshalerType = reflect.TypeOf((*encoding.BinaryMarshaler)(nil)).Elem()
 	textMarshalerType   = reflect.TypeOf((*encoding.TextMarshaler)(nil)).Elem()
 )
+
+// throughInterfaces returns the value held by an interface-typed value (a nil
+// pointer held in an interface is not a nil interface), or the value itself.
+func throughInterfaces(value reflect.Value) reflect.Value {
+	for value.Kind() == reflect.Interface && !value.IsNil() {
+		value = value.Elem()
+	}
+	return value
+}
 
 // marshalerBehindIndirection reports whether value is a pointer or interface
 // that leads to a value of a registered type carrying the marshalling method
